@@ -151,8 +151,7 @@ def _session(mount, base, trap):
     r = H.run(s, b'LOAD "%s.BAS"' % (b'T' if trap else b'P'))
     if r.err is not None or r.exc is not None:
         raise CheckError('LOAD of protected program failed: %r' % (r,))
-    if not s._impl.program.protected:
-        raise CheckError('program not protected after LOAD')
+    # (whether the program is in fact protected now is for the oracle to find out: LIST etc. must fail)
     return s, lpt
 
 
